@@ -13,7 +13,11 @@ func (fc *FnCtx) dryRun(st *State, label string, iter func(d *State)) []any {
 	// save ordinals so that names in the real run are unaffected
 	savedLoopOrd, savedRetOrd := fc.loopOrd, fc.retOrd
 	savedInvCall := fc.invCallOrd
-	defer func() { fc.invCallOrd = savedInvCall }()
+	savedAssign := map[string]int{}
+	for k, v := range fc.assignOrd {
+		savedAssign[k] = v
+	}
+	defer func() { fc.invCallOrd = savedInvCall; fc.assignOrd = savedAssign }()
 	savedCall := map[string]int{}
 	for k, v := range fc.callOrd {
 		savedCall[k] = v
